@@ -198,8 +198,9 @@ def main():
     res["reach"] = part.REACH[0]
     res["ce_args"] = ces[-1] if ces else None
     res["notes"] = part.NOTES[:20]
+    res["samples"] = part.SAMPLES[:3]
     res["wall_s"] = round(time.time() - t0, 3)
-    print("VTRESULT " + json.dumps(res))
+    print("VTRESULT " + json.dumps(res, default=repr))
     sys.stdout.flush()
     os._exit(0)
 
